@@ -38,12 +38,22 @@ def models_cnf(n, clauses):
     for cl in clauses:
         c = 0
         for lit in cl:
+            if not (isinstance(lit, int) and 1 <= abs(lit) <= n):
+                raise LiteralOutOfRange(lit, n)
             m = masks[abs(lit) - 1]
             c |= m if lit > 0 else full ^ m
         acc &= c
         if not acc:
             break
     return acc
+
+
+class LiteralOutOfRange(Exception):
+    """The formula under test mentions a literal outside its n declared variables (the case runner reports it as a
+    violation: no property tolerates such a formula)."""
+    def __init__(self, lit, n):
+        Exception.__init__(self, "literal %r in a formula that declares %d variables" % (lit, n))
+        self.lit, self.n = lit, n
 
 
 def _add_plane(planes, mask, b):
@@ -64,6 +74,8 @@ def models_pb(n, terms, op, degree):
     for c, lit in terms:
         if c <= 0:
             raise ValueError("bit-sliced adder wants positive coefficients")
+        if not (isinstance(lit, int) and 1 <= abs(lit) <= n):
+            raise LiteralOutOfRange(lit, n)
         m = masks[abs(lit) - 1]
         if lit < 0:
             m ^= full
